@@ -943,7 +943,7 @@ func main() {
 	if f := os.Getenv("VERIF_REPLAY"); f != "" {
 		doReplay(f)
 	}
-	r := ev.Start("C15", "exploration", 150*time.Second, 18*time.Minute)
+	r := ev.Start("C15", "exploration", 4*time.Minute, 30*time.Minute)
 	root := scratchRoot()
 	finish := func(rule string, ex bool) {
 		os.RemoveAll(root)
